@@ -15,7 +15,8 @@ RULE = ("(a) every name (7 letters x up to 2 sharps/flats = 35) x octaves 0..9 (
         "steps from {transpose(shorthand, up/down), augment, diminish} applied at container, bar or track level, checked after "
         "every step against shadow Note copies (lifting differential) and, for ordinary names, the arithmetic. Non-trivial: a "
         "transposition that crosses an octave boundary (incl. Cb/B# spellings, descending from C); a history of >= 3 steps or one "
-        "on a bar holding both a rest and a chord.")
+        "on a bar holding both a rest and a chord."
+        ' Also: tracks built by Track.from_chords (repeated symbols, nesting, rests), melodic sequences moved by the interval the history then uses, enharmonic twin bars, tracks with an instrument attached, keyword / default direction forms.')
 ASSUMPTIONS = ["downward transposition is generated from octave >= 1 (the statement does not say what happens below octave 0)",
                "the pitch/letter arithmetic is asserted for names with <= 2 unmixed accidentals (the statement's name domain); "
                "names outside it that arise inside histories are covered by the Note-level differential only",
